@@ -1,6 +1,6 @@
 #!/usr/bin/env python3
 """Parallel regression: every mutants/*.patch must be caught (exit 1) and every seeded/<id>/patch.diff is re-run, each on its own scratch
-worktree of /repo HEAD with its own Verus build directory.  usage: tools/regress_par.py [-j N] [mutants|seeds|all] [substring-filter]
+worktree of /repo HEAD with its own Verus build directory.  usage: tools/regress_par.py [-j N] [mutants|seeds|all] [substring-filter, alternatives separated by '|']
 Results: one line per change; summary at the end; seeded/<id>/meta.json `last_check` is updated for seeds."""
 import glob, json, os, subprocess, sys, threading, queue, shutil
 V = os.path.dirname(os.path.dirname(os.path.abspath(__file__)))
@@ -15,12 +15,12 @@ jobs = queue.Queue()
 if what in ('mutants', 'all'):
     for p in sorted(glob.glob(os.path.join(V, 'mutants', '*.patch'))):
         name = os.path.basename(p)[:-6]
-        if flt in name:
+        if any(f in name for f in flt.split('|')):
             jobs.put(('mutant', name, name.split('__')[0], p))
 if what in ('seeds', 'all'):
     for d in sorted(glob.glob(os.path.join(V, 'seeded', '*'))):
         name = os.path.basename(d)
-        if flt in name and os.path.exists(os.path.join(d, 'patch.diff')):
+        if any(f in name for f in flt.split('|')) and os.path.exists(os.path.join(d, 'patch.diff')):
             jobs.put(('seed', name, name.split('-')[0], os.path.join(d, 'patch.diff')))
 results = []
 lock = threading.Lock()
